@@ -367,6 +367,42 @@ def run_crypto_grid(ctx, case):
                         if w:
                             reqs.append((kind, '%s/%s/wrapped' % (o.kind, fmt.name if fmt else '-'),
                                          rig.op_get(o.uid, fmt=fmt, wrap=rig.wrap_spec(w, rng.choice(list(BM))))))
+                # keys registered already wrapped: every subset of the optional fields of the key wrapping data, with and without
+                # cryptographic parameters in the key information blocks; read back plainly and in every key format
+                from kmip.core import objects as cobjects_
+                for kind_w in ('sym', 'pub', 'priv'):
+                    for bits in range(32):
+                        fields = [f for i_, f in enumerate(('eki', 'mski', 'mac', 'iv', 'enc')) if bits >> i_ & 1]
+                        cp_ = rng.choice((None, rig.cparams(block_cipher_mode=BM.NIST_KEY_WRAP), rig.cparams(hashing_algorithm=HA.SHA_256)))
+                        kw_ = {'wrapping_method': rng.choice(list(E.WrappingMethod))}
+                        if 'eki' in fields:
+                            kw_['encryption_key_information'] = cobjects_.EncryptionKeyInformation(unique_identifier='1', cryptographic_parameters=cp_)
+                        if 'mski' in fields:
+                            kw_['mac_signature_key_information'] = cobjects_.MACSignatureKeyInformation(unique_identifier='2', cryptographic_parameters=cp_)
+                        if 'mac' in fields:
+                            kw_['mac_signature'] = b'\x01\x02\x03'
+                        if 'iv' in fields:
+                            kw_['iv_counter_nonce'] = bytes(8)
+                        if 'enc' in fields:
+                            kw_['encoding_option'] = rng.choice(list(E.EncodingOption))
+                        w_ = cobjects_.KeyWrappingData(**kw_)
+                        sec_ = {'sym': lambda: rig.secret_sym(bytes(24), CA.AES, 128, E.KeyFormatType.RAW, wrapping=w_),
+                                'pub': lambda: rig.secret_public(bytes(40), CA.RSA, 1024, E.KeyFormatType.X_509, wrapping=w_),
+                                'priv': lambda: rig.secret_private(bytes(40), CA.RSA, 1024, E.KeyFormatType.PKCS_8, wrapping=w_)}[kind_w]()
+                        label_ = 'registered-wrapped/%s/%s%s' % (kind_w, '+'.join(fields) or 'method-only', '' if cp_ is None else '/cp')
+                        try:
+                            rr_ = srv.send([rig.op_register(kind_w, sec_, rig.common_attrs(names=['c13-w-%s-%d' % (kind_w, bits)]))], ident, (1, 2))
+                        except Exception:
+                            ctx.count('not_wellformed')
+                            continue
+                        ctx.count('keys_registered_wrapped')
+                        if rr_.error is None and rr_.reason() == rig.GENERAL_FAILURE:
+                            exc = ctx.cap.last_exc or ('unknown', '', 'unknown')
+                            ctx.violation('register|%s|%s|%s' % (exc[0], exc[2], logwatch.exception_digest(exc[0], exc[1])),
+                                          'well-formed register (%s) answered GENERAL_FAILURE (%s: %s in %s)' % (label_, exc[0], exc[1], exc[2]), None)
+                        if rr_.error is None and rr_.ok():
+                            reqs.append((kind, label_, rig.op_get(rr_.uid())))
+                            reqs.append((kind, label_ + '/fmt', rig.op_get(rr_.uid(), fmt=rng.choice(list(E.KeyFormatType)))))
             for opname, label, op in reqs:
                 version = rng.choice(((1, 2), (1, 3), (1, 4), (2, 0)))
                 try:
